@@ -154,14 +154,22 @@ def run(ctx):
     BIGF = [("ext.ownkey", 73, 4), ("ext.parent", 73, 512 - 12), ("ext.next", 73, 512 - 8), ("ext.data0", 73, 24 + 71 * 4), ("hdr.extension", 0, 512 - 8), ("hdrkey", 0, 4),
             ("ext.data1", 73, 24 + 70 * 4), ("ext.data3", 73, 24 + 68 * 4), ("hdr.first", 0, 16), ("hdr.data1", 0, 24 + 70 * 4)]
     SMALLF = [("hdrkey", 0, 4), ("data0", 0, 24 + 71 * 4), ("ext", 0, 512 - 8), ("parent", 0, 512 - 12), ("first", 0, 16), ("data1", 0, 24 + 70 * 4), ("data2", 0, 24 + 69 * 4)]
-    combos = [(True, f, t) for f in BIGF for t in TARGETS] + [(False, f, t) for f in SMALLF for t in TARGETS]
+    combos = [(True, f, t, "part") for f in BIGF for t in TARGETS] + [(False, f, t, "part") for f in SMALLF for t in TARGETS]
+    # the same on a floppy (the volume is the whole device): one block past the end, and far beyond
+    FTARGETS = [1760, 1761, 3519, 2 ** 31 - 1, 2 ** 32 - 1]
+    combos += [(True, f, t, "flop") for f in BIGF for t in FTARGETS] + [(False, f, t, "flop") for f in SMALLF for t in FTARGETS]
     combos_base = combos
     combos = combos * 2          # every combination on OFS and on FFS
-    for case, (big, f0, target) in enumerate(combos):
+    for case, (big, f0, target, devk) in enumerate(combos):
         flav = (case // len(combos_base)) % 2
         bs = 512 if flav & 1 else 488
-        first0, size0 = 64, 800
-        L = gen.dev_create("PART:120:2:16:2,25;27,25", flav) + ["mountdev 0", "mount 0 0",
+        if devk == "part":
+            first0, size0 = 64, 800
+            mk, geo = gen.dev_create("PART:120:2:16:2,25;27,25", flav), "120 2 16"
+        else:
+            first0, size0 = 0, 1760
+            mk, geo = gen.dev_create("DD", flav), "80 2 11"
+        L = mk + ["mountdev 0", "mount 0 0",
              "open 0 - %s w" % hexs("victim"), "write 0 5 %d" % (80 * bs if big else 3000), "close 0", "umount", "umountdev"]
         # header of the first file on an empty volume: root+2 (bitmap at root+1), root = size/2; its blocks follow one by one:
         # 72 data blocks, then the extension block, then its data blocks.  Targets: just past the partition, inside the next one,
@@ -174,8 +182,8 @@ def run(ctx):
         else:
             ops = ["open 0 - %s rw" % hexs("victim"), "seek 0 100", "write 0 9 700", "flush 0", "read 0 100", "seek 0 %d" % (2 * bs + 7), "read 0 10",
                    "seek 0 %d" % (bs + 7), "read 0 10", "seek 0 0", "read 0 %d" % (3 * bs), "close 0", "rm - %s" % hexs("victim")]
-        L2 = ["loaddev mem $W/img", "mountdev 0", "wlog $W/log reads", "mount 0 0"] + ops + ["umount", "wlog off", "umountdev"]
-        script = "\n".join(L + ["dump $W/img0", "loaddev mem $W/img0 120 2 16",
+        L2 = ["loaddev mem $W/img %s" % geo, "mountdev 0", "wlog $W/log reads", "mount 0 0"] + ops + ["umount", "wlog off", "umountdev"]
+        script = "\n".join(L + ["dump $W/img0", "loaddev mem $W/img0 %s" % geo,
                                 "poke32 %d %d %d fixsum 20" % (first0 + field[1], field[2], target), "dump $W/img"] + L2) + "\n"
         rc, out, err, wd = common.run_script(ctx, script)
         res_ = common.parse_results(out)
@@ -193,7 +201,7 @@ def run(ctx):
                 if t and t[0] in ("R", "W"):
                     s = int(t[1])
                     if not (first0 <= s <= first0 + size0 - 1):
-                        ctx.fail("oracle", "device %s at block %d outside partition 0 [%d,%d] after a pointer was redirected out of range" % (
+                        ctx.fail("oracle", "device %s at block %d outside the volume [%d,%d] after a pointer was redirected out of range" % (
                             "write" if t[0] == "W" else "read", s, first0, first0 + size0 - 1),
                             {"script": script, "field": field[0], "value": target}, expected="block inside the partition", actual=s)
                         break
